@@ -1,45 +1,106 @@
-"""Discharging obligations with z3 (and cvc5 on z3's unknowns)."""
+"""Discharging obligations with z3.
+
+An obligation is  hyps /\\ axioms ==> goal.  Proving it from a *subset* of the hypotheses is sound, and z3 is far more
+reliable on small contexts, so the goal is first attempted with only the hypotheses that share symbols with it
+(relevance closure of depth 1, then 2), and only then with everything.
+"""
 from __future__ import annotations
-import time, subprocess, tempfile, os
+import time
 import z3
 
+_sym_cache = {}
 
-def discharge(ob, axioms, timeout_ms=20000, want_model=True):
-    """Returns dict(status=proved|refuted|unknown, time=..., model=...)."""
+
+def symbols(f):
+    """Names of the uninterpreted constants / functions occurring in f."""
+    k = f.get_id()
+    if k in _sym_cache:
+        return _sym_cache[k][1]
+    out = set()
+    seen = set()
+    stack = [f]
+    while stack:
+        t = stack.pop()
+        tid = t.get_id()
+        if tid in seen:
+            continue
+        seen.add(tid)
+        if z3.is_quantifier(t):
+            stack.append(t.body())
+            continue
+        if z3.is_app(t):
+            d = t.decl()
+            if d.kind() == z3.Z3_OP_UNINTERPRETED:
+                out.add(d.name())
+            stack.extend(t.children())
+    _sym_cache[k] = (f, out)
+    return out
+
+
+def relevant(hyps, axioms, goal, depth):
+    syms = set(symbols(goal))
+    chosen_h = [False] * len(hyps)
+    chosen_a = [False] * len(axioms)
+    for _ in range(depth):
+        new = set()
+        for i, h in enumerate(hyps):
+            if not chosen_h[i] and symbols(h) & syms:
+                chosen_h[i] = True
+                new |= symbols(h)
+        for i, a in enumerate(axioms):
+            if not chosen_a[i] and symbols(a) & syms:
+                # an unfolding axiom is relevant when the function it defines is in play
+                chosen_a[i] = True
+                new |= symbols(a)
+        if not (new - syms):
+            break
+        syms |= new
+    return [h for h, c in zip(hyps, chosen_h) if c], [a for a, c in zip(axioms, chosen_a) if c]
+
+
+def _check(hyps, axioms, goal, timeout_ms, mbqi=True):
     s = z3.Solver()
-    s.set("timeout", timeout_ms)
-    for h in ob.hyps:
+    s.set("timeout", int(timeout_ms))
+    if not mbqi:
+        s.set("smt.mbqi", False)
+    for h in hyps:
         s.add(h)
     for a in axioms:
         s.add(a)
-    s.add(z3.Not(ob.goal))
+    s.add(z3.Not(goal))
     t0 = time.time()
     r = s.check()
-    dt = time.time() - t0
-    out = {"status": "proved" if r == z3.unsat else ("refuted" if r == z3.sat else "unknown"), "time": dt, "backend": "z3", "model": None,
-           "reason": s.reason_unknown() if r == z3.unknown else ""}
+    return r, time.time() - t0, s
+
+
+def discharge(ob, axioms, timeout_ms=20000, want_model=True):
+    """Returns dict(status=proved|refuted|unknown, time, backend, model)."""
+    total = 0.0
+    hyps = list(ob.hyps)
+    stages = [(1, min(3000, timeout_ms)), (2, min(6000, timeout_ms))]
+    for depth, to in stages:
+        hs, ax = relevant(hyps, axioms, ob.goal, depth)
+        if len(hs) == len(hyps) and len(ax) == len(axioms):
+            break
+        r, dt, _ = _check(hs, ax, ob.goal, to)
+        total += dt
+        if r == z3.unsat:
+            return {"status": "proved", "time": total, "backend": f"z3(relevant depth {depth}: {len(hs)}/{len(hyps)} hyps)", "model": None, "reason": ""}
+    r, dt, s = _check(hyps, axioms, ob.goal, timeout_ms)
+    total += dt
+    out = {"status": "proved" if r == z3.unsat else ("refuted" if r == z3.sat else "unknown"), "time": total, "backend": "z3",
+           "model": None, "reason": s.reason_unknown() if r == z3.unknown else ""}
     if r == z3.sat and want_model:
         out["model"] = s.model()
     if r == z3.unknown:
-        # second chance: different tactic configuration (no model-based quantifier instantiation, e-matching only)
-        s2 = z3.Solver()
-        s2.set("timeout", timeout_ms)
-        s2.set("smt.mbqi", False)
-        for h in ob.hyps:
-            s2.add(h)
-        for a in axioms:
-            s2.add(a)
-        s2.add(z3.Not(ob.goal))
-        t1 = time.time()
-        r2 = s2.check()
-        out["time"] += time.time() - t1
+        r2, dt2, s2 = _check(hyps, axioms, ob.goal, timeout_ms, mbqi=False)
+        out["time"] += dt2
         if r2 == z3.unsat:
             out["status"] = "proved"
             out["backend"] = "z3(mbqi=off)"
         elif r2 == z3.sat:
-            # without mbqi a 'sat' is only a candidate (quantifiers may be unsatisfied): keep it as unknown but keep the model
+            # without mbqi 'sat' is only a candidate (quantified hypotheses may be violated): stays unknown, model kept
             out["model"] = s2.model() if want_model else None
-            out["status"] = "unknown"
             out["candidate"] = True
     return out
 
